@@ -12,7 +12,7 @@ use serde_json::json;
 pub const N_KINDS: [Kind; 9] = [Kind::Sma, Kind::Wma, Kind::Sd, Kind::Mad, Kind::Min, Kind::Max, Kind::Fast, Kind::Bb, Kind::Cci];
 pub const N1_KINDS: [Kind; 3] = [Kind::Roc, Kind::Er, Kind::Mfi];
 
-pub const RULE: &str = "(for the window-only MIN/MAX/FAST/ROC/ER a third of the prefixes also carry NaN, +-inf, f64::MAX or +-1e308 ticks near their end) For SMA/WMA/SD/MAD/MIN/MAX/FAST/BB/CCI (suffix length n) and ROC/ER/MFI (n+1): instance A is fed prefix+suffix, a fresh instance S only the suffix, then both a common extension of 2n+2 further inputs; outputs compared at the end of the suffix and after every extension step (so every common-suffix length n..3n+2 is covered). Prefixes: none-like short ones, random walks, RAND families, and prefixes with spikes 10^6 times larger than the suffix; suffix drawn from a different distribution than the prefix; periods 1..=512 sampled plus 1..=8 systematically; scalar and bar feeds. Oracle: MIN, MAX, FAST exactly equal; others within tau(t)*M_hist (M_hist over A's whole history; squares for SD and the Bollinger half-width; x condition number c<=1e6 for CCI and MFI, from the double-double reference run on A's history). Non-trivial: prefix non-empty and different from the suffix; distinct by hash of (indicator, params, prefix head, suffix head).";
+pub const RULE: &str = "(a fifth of the histories contain a reset() two thirds into the prefix; for the window-only MIN/MAX/FAST/ROC/ER a third of the prefixes also carry NaN, +-inf, f64::MAX or +-1e308 ticks near their end) For SMA/WMA/SD/MAD/MIN/MAX/FAST/BB/CCI (suffix length n) and ROC/ER/MFI (n+1): instance A is fed prefix+suffix, a fresh instance S only the suffix, then both a common extension of 2n+2 further inputs; outputs compared at the end of the suffix and after every extension step (so every common-suffix length n..3n+2 is covered). Prefixes: none-like short ones, random walks, RAND families, and prefixes with spikes 10^6 times larger than the suffix; suffix drawn from a different distribution than the prefix; periods 1..=512 sampled plus 1..=8 systematically; scalar and bar feeds. Oracle: MIN, MAX, FAST exactly equal; others within tau(t)*M_hist (M_hist over A's whole history; squares for SD and the Bollinger half-width; x condition number c<=1e6 for CCI and MFI, from the double-double reference run on A's history). Non-trivial: prefix non-empty and different from the suffix; distinct by hash of (indicator, params, prefix head, suffix head).";
 
 fn suffix_len(kind: Kind, n: usize) -> usize {
     if N1_KINDS.contains(&kind) {
@@ -23,6 +23,10 @@ fn suffix_len(kind: Kind, n: usize) -> usize {
 }
 
 pub fn check_forget(rep: &mut Report, p: &Params, prefix: &[In], suffix_ext: &[In], tag: &str) {
+    let tag_reset = prefix.len() % 5 == 2;
+    if tag_reset {
+        rep.count("pairs.history_contains_a_reset");
+    }
     let kind = p.kind;
     let n = p.n();
     let sl = suffix_len(kind, n);
@@ -35,6 +39,10 @@ pub fn check_forget(rep: &mut Report, p: &Params, prefix: &[In], suffix_ext: &[I
         // the full-history instance also changes identity (clone / restore) inside the prefix
         if prefix.len() > 6 && i == prefix.len() / 2 {
             a.perturb(i);
+        }
+        // ... and a fifth of the histories contain a reset() (after the ring has wrapped, for the longer ones)
+        if tag_reset && i == (2 * prefix.len()) / 3 {
+            let _ = a.reset();
         }
         if a.feed(x).is_err() {
             return;
@@ -101,7 +109,7 @@ pub fn check_forget(rep: &mut Report, p: &Params, prefix: &[In], suffix_ext: &[I
                         "{}: after a {}-input prefix and {} common inputs, full-history instance gives {:?}, suffix-only instance {:?} ({}: |diff| {:e} > tol {:e})",
                         p.label(), prefix.len(), i + 1, oa.vals(), os.vals(), name, err, tol
                     );
-                    let replay = replay_twin("C17", &sig, p, ops_json(&full_a), p, ops_json(&suffix_ext[..=i]), 0, "id", 1.0, 0.0, tol, 0.0, &detail);
+                    let replay = replay_twin("C17", &sig, p, { let mut o = ops_json(&full_a); if tag_reset { if let Some(arr) = o.as_array_mut() { arr.insert((2 * prefix.len()) / 3, serde_json::json!({"op": "reset"})); } } o }, p, ops_json(&suffix_ext[..=i]), 0, "id", 1.0, 0.0, tol, 0.0, &detail);
                     rep.violation(sig, detail, replay);
                 } else {
                     rep.violation_again(&sig);
